@@ -1,3 +1,36 @@
-From Coq Require Import List. Require Import M_Parse.
-Theorem placeholder_C01 : True. Proof. exact I. Qed.
-Print Assumptions placeholder_C01.
+(* C01 - every declared node becomes exactly one faithful row of the nodes table *)
+From Coq Require Import String Ascii List Bool Arith NArith ZArith.
+Require Import PyStr PyInt Sexp Xml M_C09 M_C08 Ns Table M_Parse T_Parse.
+Import ListNotations.
+Open Scope char_scope.
+
+(* exactly one row per node element of a file, in document order; each row carries the element's class, the NodeId its text (or alias) denotes under the file's namespace map, the split browse name with its namespace, the right-stripped first DisplayName/Description, the decoded Value *)
+Theorem C01_file_rows : forall E ns d ns1 fo,
+  parse_file E ns d = Ok (ns1, fo) ->
+  exists amap, Forall2 (row_matches E (zmap_of (snd (file_ns ns d))) amap) (d_nodes d) (fo_nodes fo).
+Proof. exact C01_file_rows. Qed.
+
+(* the nodes table of a file set is the concatenation of the per-file rows (files kept by the caller filter, in path order): no other rows *)
+Theorem C01_row_count : forall E caller docs p,
+  parse_files E caller docs = Ok p ->
+  exists ns fos, parse_seq E caller (sort_docs (match caller with [] => docs | _ => filter (keep_file caller) docs end)) = Ok (ns, fos) /\
+  p_nodes p = flat_map fo_nodes fos.
+Proof. exact C01_row_count. Qed.
+
+(* DisplayName / Description: first child, trailing whitespace removed, empty when absent *)
+Theorem C01_first_text : forall t, first_text (Some (Some t)) = rstrip t /\ first_text None = [] /\ first_text (Some None) = [].
+Proof. exact C01_first_text_spec. Qed.
+
+(* faithful to the code (known finding): only the second ':'-component of a prefixed browse name survives *)
+Theorem C01_browsename_second_colon_refuted : split_browsename (lit "1:Var:colon") [(0%Z, 0%Z); (1%Z, 1%Z)] = Ok (lit "Var", Some 1%Z).
+Proof. exact C01_browsename_second_colon_refuted. Qed.
+
+(* faithful to the code (known finding): AccessLevel/EventNotifier/ValueRank wrap to Int8 *)
+Theorem C01_int8_wrap_refuted : cast_attr (lit "AccessLevel") (lit "255") [] [] = Ok (AInt (-1)%Z).
+Proof. exact C01_int8_wrap_refuted. Qed.
+
+Print Assumptions C01_file_rows.
+Print Assumptions C01_row_count.
+Print Assumptions C01_first_text.
+Print Assumptions C01_browsename_second_colon_refuted.
+Print Assumptions C01_int8_wrap_refuted.
